@@ -153,10 +153,18 @@ type c40FinLane struct {
 	beforeLoss int
 }
 
-func TestVerifC40Finish(t *testing.T) {
-	r := verifkit.Start(t, "C40", "finish")
+// TestVerifC40Finish: no loss, or a cache loss immediately before stream.finish.
+func TestVerifC40Finish(t *testing.T) { c40RunFinish(t, "finish", false) }
+
+// TestVerifC40FinishMidstream: the cache loss happens in the middle of the
+// stream and further cache-only events of the same message reach the new
+// (empty) cache before stream.finish.
+func TestVerifC40FinishMidstream(t *testing.T) { c40RunFinish(t, "finish_midstream", true) }
+
+func c40RunFinish(t *testing.T, unit string, midOnly bool) {
+	r := verifkit.Start(t, "C40", unit)
 	defer r.Finish()
-	r.SetRule("One case = one stream message on a partially constructed cluster.Node (real stream cache, real finish path, proposer = real fsm on a real meta DB): 1-3 lanes, 2-12 cache-only events (open, text delta, JSON snapshot) with duplicate ids, optional durable close/error/cancel of a lane, then a leader cache loss of a random kind (none | reset-after-restore | new leader node with empty cache | route-authority loss | restore pause+resume) at a random position (right before finish, or followed by more cache-only events), then stream.finish directly or through the finish coalescer. Non-trivial = acknowledged non-durable deltas existed when the cache was lost; distinct = (loss kind, position, coalescer, lanes, lanes with outstanding deltas, explicit terminals, events after loss per lane).")
+	r.SetRule("One case = one stream message on a partially constructed cluster.Node (real stream cache, real finish path, proposer = real fsm on a real meta DB): 1-3 lanes, 2-12 cache-only events (open, text delta, JSON snapshot) with duplicate ids, optional durable close/error/cancel of a lane, then a leader cache loss of a random kind (none | reset-after-restore | new leader node with empty cache | route-authority loss | restore pause+resume) either right before stream.finish (unit finish) or followed by 1-4 more cache-only events of the same message (unit finish_midstream), then stream.finish directly or through the finish coalescer. Non-trivial = acknowledged non-durable deltas existed when the cache was lost; distinct = (loss kind, position, coalescer, lanes, lanes with outstanding deltas, explicit terminals, events after loss per lane).")
 	r.Assume("Finish payloads without a snapshot; a finish whose payload carries a snapshot is documented as self-sufficient (pkg/cluster/FLOW.md) and only counted.")
 	r.Note("part_ii", "constructed in-package without a running node: Node{cfg,router,messageEventStreamCache,[messageEventFinishCoalescer],proposer} with started=true; proposer applies commands to fsm.NewStateMachineWithHashSlots on meta.Open(t.TempDir())")
 
@@ -196,12 +204,16 @@ func TestVerifC40Finish(t *testing.T) {
 		r.Violation(sig, w)
 	}
 
-	n := r.N(6000, 90000)
+	n := r.N(8000, 90000)
+	stream := uint64(4002)
+	if midOnly {
+		n, stream = r.N(1500, 25000), 4003
+	}
 	for i := 0; i < n; i++ {
 		if r.Skip(i) {
 			continue
 		}
-		rng := r.Rand(4002, uint64(i))
+		rng := r.Rand(stream, uint64(i))
 		coalesce := rng.IntN(4) == 0
 		node := c40NewNode(router, proposer, coalesce)
 		channel := fmt.Sprintf("fin-ch-%d", i)
@@ -210,7 +222,10 @@ func TestVerifC40Finish(t *testing.T) {
 		if i%5 == 0 {
 			loss = lossKinds[1+rng.IntN(len(lossKinds)-1)]
 		}
-		midStream := loss != "none" && rng.IntN(3) == 0
+		midStream := midOnly
+		if midOnly && loss == "none" {
+			loss = lossKinds[1+rng.IntN(len(lossKinds)-1)]
+		}
 		nl := 1 + rng.IntN(3)
 		lanes := map[string]*c40FinLane{}
 		laneOf := func(key string) *c40FinLane {
@@ -421,7 +436,10 @@ func TestVerifC40Finish(t *testing.T) {
 			violation("closed-finish-row-written-by-failed-finish", w)
 		}
 		if finishErr != nil && !lostDeltas {
-			r.Count("finish.error_without_outstanding_deltas(allowed)", 1)
+			r.Count("finish.error_without_lost_deltas(allowed)", 1)
+			if !lost && outstanding > 0 {
+				r.Count("finish.error_with_intact_cache_and_outstanding_deltas(allowed)", 1)
+			}
 		}
 		if finishErr != nil && proposals > 0 {
 			r.Count("finish.failed_after_proposing", 1)
